@@ -146,14 +146,37 @@ where
     rep.stage(stage, space, total, t0);
 }
 
+/// Segmentation of complete requests on one TCP connection: every 1-cut at every offset and
+/// every 2-cut with both cuts inside the first `head` bytes (the longest signature is 28 bytes
+/// but all literal bytes sit in the first 12), each segment judged by the reference stream model.
+pub fn cuts_stage(rep: &mut Report, env: &AppEnv, stage: &str, pls: &[Vec<u8>], head: usize) {
+    let mut plan: Vec<(usize, usize, usize)> = Vec::new();
+    for (pi, p) in pls.iter().enumerate() {
+        for a in 1..p.len() {
+            plan.push((pi, a, 0));
+        }
+        let h = head.min(p.len().saturating_sub(1));
+        for a in 1..=h {
+            for b in a + 1..=h {
+                plan.push((pi, a, b));
+            }
+        }
+    }
+    let space = format!("{} complete requests x (every 1-cut at every offset + every 2-cut inside the first {} bytes) x {{v4,v6}}", pls.len(), head);
+    sweep_conv(rep, env, stage, &space, plan.len() as u64 * 2, |i| {
+        let (pi, a, b) = plan[(i / 2) as usize];
+        let p = &pls[pi];
+        let segs = if b == 0 { vec![p[..a].to_vec(), p[a..].to_vec()] } else { vec![p[..a].to_vec(), p[a..b].to_vec(), p[b..].to_vec()] };
+        (Path { tcp: true, v6: i % 2 == 1, ports: (i % 2) as usize }, segs)
+    });
+}
+
 fn envs(rep: &mut Report) -> Vec<AppEnv> {
     let mut v = Vec::new();
     // lists + every log-macro argument evaluated (behaviour must not depend on verbosity)
     let mut cfgs = vec![cfg_plain(), cfg_lists()];
     if rep.tier == "thorough" {
-        cfgs.push(cfg_lists().with_log(crate::driver::LoggerKind::None, crate::driver::Level::Off));
-        // the same sweeps on the overflow-checked build with every log argument evaluated
-        cfgs.push(cfg_lists().with_profile(crate::driver::Profile::Dev).with_log(crate::driver::LoggerKind::None, crate::driver::Level::Trace));
+        cfgs.push(cfg_lists().with_log(crate::driver::LoggerKind::None, crate::driver::Level::Off).with_profile(crate::driver::Profile::Release));
     }
     for c in cfgs {
         match AppEnv::new(c) {
@@ -279,7 +302,7 @@ pub fn run_c13(rep: &mut Report, thorough: bool) {
     let reqs = http_requests();
     let core = http_core();
     for env in envs(rep) {
-        let tag = if env.cfg.profile == crate::driver::Profile::Dev { "dev" } else if env.cfg.self_ips.is_empty() { "plain" } else if env.cfg.level == crate::driver::Level::Trace { "lists-trace" } else { "lists" };
+        let tag = if env.cfg.self_ips.is_empty() { "plain" } else if env.cfg.level == crate::driver::Level::Trace { "lists-trace-dev" } else { "lists" };
         let paths = all_paths();
         let np: u64 = if thorough { paths.len() as u64 } else { 4 };
         let sel = |k: u64| if thorough { paths[k as usize] } else { [Path { tcp: false, v6: false, ports: 0 }, Path { tcp: true, v6: true, ports: 1 }, Path { tcp: false, v6: true, ports: 1 }, Path { tcp: true, v6: false, ports: 0 }][k as usize] };
@@ -332,6 +355,33 @@ pub fn run_c13(rep: &mut Report, thorough: bool) {
             let k = offs.partition_point(|o| *o <= j) - 1;
             (sel2(i % np2), fault(&core[k * cstep], j - offs[k]))
         });
+        // segmentation: the core requests cut at every offset (and twice inside the first 16 bytes)
+        {
+            let nc = if thorough { core.len() } else { 12 };
+            let st = core.len() / nc;
+            let sel: Vec<Vec<u8>> = (0..nc).map(|k| core[k * st + (k % st.max(1))].clone()).collect();
+            cuts_stage(rep, &env, &format!("http-cuts-{}", tag), &sel, 16);
+        }
+        if thorough && env.cfg.self_ips.is_empty() {
+            // two faults: every pair of single faults for three short requests
+            let bases: Vec<Vec<u8>> = vec![b"GET / HTTP/1.1\r\n\r\n".to_vec(), b"PUT /a HTTP/1.0\nA:b\n\n".to_vec(), b"HEAD /x HTTP/1.1\r\nH: v\r\n\r\n".to_vec()];
+            for (bi, b) in bases.iter().enumerate() {
+                let n1 = fault_count(b);
+                // the second fault is applied to the result of the first; its count depends on the
+                // length of the intermediate string, which differs from |b| by at most 1 except for
+                // prefixes: use the minimum count that is valid for every intermediate (prefix faults
+                // are excluded from the first position)
+                let first_n = n1 - b.len() as u64; // without the proper prefixes
+                let second_n = fault_count(&b[..b.len() - 1]);
+                sweep_app(rep, &env, &format!("http-two-faults-{}-{}", bi, tag), "every pair (first fault: deletion / substitution / insertion; second fault: any single fault of the result) for a short request x {UDP, TCP}", first_n * second_n * 2, |i| {
+                    let d = unrank(i, &[first_n, second_n, 2]);
+                    let f1 = fault(b, d[0]);
+                    let k2 = d[1] % fault_count(&f1);
+                    let f2 = fault(&f1, k2);
+                    (if d[2] == 0 { Path { tcp: false, v6: false, ports: 0 } } else { Path { tcp: true, v6: true, ports: 1 } }, f2)
+                });
+            }
+        }
     }
     rep.states = rep.sink.classes.len() as u64;
 }
@@ -359,7 +409,7 @@ pub fn run_c14(rep: &mut Report, thorough: bool) {
     let p4 = Path { tcp: false, v6: false, ports: 0 };
     let p6 = Path { tcp: false, v6: true, ports: 1 };
     for env in envs(rep) {
-        let tag = if env.cfg.profile == crate::driver::Profile::Dev { "dev" } else if env.cfg.self_ips.is_empty() { "plain" } else if env.cfg.level == crate::driver::Level::Trace { "lists-trace" } else { "lists" };
+        let tag = if env.cfg.self_ips.is_empty() { "plain" } else if env.cfg.level == crate::driver::Level::Trace { "lists-trace-dev" } else { "lists" };
         let q1 = vec![(dns_labels("www.example.com"), 1u16, 1u16)];
         sweep_app(rep, &env, &format!("dns-id-{}", tag), "id 0..65535", 65536, |i| (p4, appdns::build_query(i as u16, 0x0100, &q1)));
         sweep_app(rep, &env, &format!("dns-flags-{}", tag), "flag word 0..65535 x {1,2} questions", 65536 * 2, |i| {
@@ -406,17 +456,23 @@ pub fn run_c14(rep: &mut Report, thorough: bool) {
         let opts = RunOpts::new(&format!("dns-dst-{}", tag));
         engine::run(
             &env.cfg,
-            dsts.len() as u64 * 256,
+            256 * 2,
             &opts,
             |i| {
-                let mut f = flow4(5353, 53);
-                f.sip = dsts[(i / 256) as usize];
-                vec![Cmd::Frame(f.udp(&appdns::build_query(i as u16, 0x0100, &q1)))]
+                // the SAME query bytes to every destination back to back in one responder process
+                // (forwards and backwards): the answer follows the destination of each datagram
+                let mut v = Vec::new();
+                for k in 0..dsts.len() {
+                    let mut f = flow4(5353, 53);
+                    f.sip = dsts[if i % 2 == 0 { k } else { dsts.len() - 1 - k }];
+                    v.push(Cmd::Frame(f.udp(&appdns::build_query((i / 2) as u16, 0x0100, &q1))));
+                }
+                v
             },
             |_it: &Item, _s: &mut Sink| {},
             &mut rep.sink,
         );
-        rep.stage(&format!("dns-dst-{}", tag), "6 destination addresses x 256 ids (monitor)", dsts.len() as u64 * 256, t0);
+        rep.stage(&format!("dns-dst-{}", tag), "256 ids x the same query to 6 destination addresses back to back (both orders) in one responder process (monitor)", 512, t0);
         if thorough {
             // one query near the 4096-byte frame bound: ~800 questions
             sweep_app(rep, &env, &format!("dns-many-{}", tag), "queries with 100..800 root-name questions", 8, |i| {
@@ -442,7 +498,7 @@ pub fn run_c15(rep: &mut Report, thorough: bool) {
     let pt6 = Path { tcp: true, v6: true, ports: 0 };
     let paths = [pu4, pu6, pt4, pt6];
     for env in envs(rep) {
-        let tag = if env.cfg.profile == crate::driver::Profile::Dev { "dev" } else if env.cfg.self_ips.is_empty() { "plain" } else if env.cfg.level == crate::driver::Level::Trace { "lists-trace" } else { "lists" };
+        let tag = if env.cfg.self_ips.is_empty() { "plain" } else if env.cfg.level == crate::driver::Level::Trace { "lists-trace-dev" } else { "lists" };
         // message type word
         sweep_app(rep, &env, &format!("stun-type-{}", tag), "message type 0..65535 x {magic 20-byte, classic 20-byte, classic 28-byte}", 65536 * 3, |i| {
             let ty = (i % 65536) as u16;
@@ -560,7 +616,7 @@ pub fn run_c15(rep: &mut Report, thorough: bool) {
         // source addresses
         let t0 = std::time::Instant::now();
         let srcs4 = [cli4(), cli4b(), Ip::V4([0, 0, 0, 0]), Ip::V4([255, 255, 255, 255])];
-        let srcs6 = [cli6(), cli6b(), Ip::parse("::"), Ip::parse("ff02::1")];
+        let srcs6 = [cli6(), cli6b(), Ip::parse("::ffff:10.0.0.9"), Ip::parse("::10.0.0.9")];
         let opts = RunOpts::new(&format!("stun-src-{}", tag));
         engine::run(
             &env.cfg,
@@ -579,7 +635,20 @@ pub fn run_c15(rep: &mut Report, thorough: bool) {
             |_it: &Item, _s: &mut Sink| {},
             &mut rep.sink,
         );
-        rep.stage(&format!("stun-src-{}", tag), "4 source addresses per IP version x 3 request shapes", 24, t0);
+        rep.stage(&format!("stun-src-{}", tag), "4 source addresses per IP version (incl. IPv4-mapped and IPv4-compatible IPv6) x 3 request shapes", 24, t0);
+        // later messages on a TCP connection identified as STUN: every message-type word
+        {
+            let big = stun_magic(&stun_attr(0x8022, &[b'x'; 256]), &ID12);
+            let step: u64 = if thorough { 1 } else { 1 };
+            sweep_conv(rep, &env, &format!("stun-tcp-second-{}", tag), "[>=256-byte Binding request] then a 20-byte message with every message-type word 0..65535 on the same connection x {magic, classic}", 65536 / step * 2, |i| {
+                let ty = ((i / 2) * step) as u16;
+                let mut m = if i % 2 == 0 { stun_magic(&[], &ID12) } else { stun_classic(&[], &ID16) };
+                m[0] = (ty >> 8) as u8;
+                m[1] = ty as u8;
+                (Path { tcp: true, v6: false, ports: 1 }, vec![big.clone(), m])
+            });
+            cuts_stage(rep, &env, &format!("stun-cuts-{}", tag), &[big.clone()], 28);
+        }
         let _ = thorough;
     }
     rep.states = rep.sink.classes.len() as u64;
@@ -605,7 +674,7 @@ pub fn run_c16(rep: &mut Report, thorough: bool) {
         }
     };
     for env in envs(rep) {
-        let tag = if env.cfg.profile == crate::driver::Profile::Dev { "dev" } else if env.cfg.self_ips.is_empty() { "plain" } else if env.cfg.level == crate::driver::Level::Trace { "lists-trace" } else { "lists" };
+        let tag = if env.cfg.self_ips.is_empty() { "plain" } else if env.cfg.level == crate::driver::Level::Trace { "lists-trace-dev" } else { "lists" };
         let np: u64 = if thorough { 4 } else { 2 };
         let dims = [np, 256, vers.len() as u64, 256];
         sweep_app(rep, &env, &format!("rpc-prog-vers-proc-{}", tag), "paths x 256 programs x 8 versions x 256 procedures", product(&dims), |i| {
@@ -623,6 +692,11 @@ pub fn run_c16(rep: &mut Report, thorough: bool) {
                 let p = paths[1 + d[0] as usize];
                 (p, mk(p, 0x61626364, progs[d[1] as usize], vers[d[2] as usize], procs[d[3] as usize], &[], &[]))
             });
+        }
+        {
+            let pt = Path { tcp: true, v6: false, ports: 0 };
+            let pls = vec![mk(pt, 0x61626364, 100000, 2, 3, &[], &[]), mk(pt, 0x61626364, 100000, 4, 4, &[], &[]), mk(pt, 0x01020304, 100003, 3, 0, &[], &[]), mk(pt, 0x61626364, 100000, 2, 0, &[0; 8], &[])];
+            cuts_stage(rep, &env, &format!("rpc-cuts-{}", tag), &pls, 12);
         }
         // XID bytes
         let dims = [4u64, 4, 256];
@@ -774,7 +848,7 @@ pub fn run_c17(rep: &mut Report, thorough: bool) {
     let s1 = sequences(d1.len(), 4);
     let s2 = sequences(d2.len(), 4);
     for env in envs(rep) {
-        let tag = if env.cfg.profile == crate::driver::Profile::Dev { "dev" } else if env.cfg.self_ips.is_empty() { "plain" } else if env.cfg.level == crate::driver::Level::Trace { "lists-trace" } else { "lists" };
+        let tag = if env.cfg.self_ips.is_empty() { "plain" } else if env.cfg.level == crate::driver::Level::Trace { "lists-trace-dev" } else { "lists" };
         // SMB1 ids
         let dims = [2u64, 2, 5, 65536];
         sweep_app(rep, &env, &format!("smb1-ids-{}", tag), "{negotiate, session setup} x {PID-high, PID-low, TID, UID, MID} x all 65536 values x {UDP, TCP}", product(&dims), |i| {
@@ -842,6 +916,26 @@ pub fn run_c17(rep: &mut Report, thorough: bool) {
             let m = if d[1] == 0 { appsmb::smb2_negotiate(&h, &[0x0210, 0x0202], &[3; 16]) } else { appsmb::smb2_session_setup(&h, &[1, 2, 3, 4]) };
             (two[d[0] as usize], m)
         });
+        // correlation fields are echoed whatever the other header fields say: ids x flag words
+        let flagv: Vec<u32> = std::iter::once(0u32).chain((1..32).map(|b| 1u32 << b)).chain([6u32, 0xfffffffe]).collect();
+        let dims = [2u64, 2, flagv.len() as u64, 3];
+        sweep_app(rep, &env, &format!("smb2-ids-flags-{}", tag), "{negotiate, session setup} x flag words {0, each single bit 1..31, 6, all-but-response} x {MessageId, AsyncId, SessionId non-zero} x {UDP, TCP}", product(&dims), |i| {
+            let d = unrank(i, &dims);
+            let mut h = Smb2Hdr::new(d[1] as u16);
+            h.flags = flagv[d[2] as usize];
+            h.message_id = 0x0102030405060708;
+            match d[3] {
+                0 => {}
+                1 => h.async_id = 0x1112131415161718,
+                _ => h.session_id = 0x2122232425262728,
+            }
+            let m = if d[1] == 0 { appsmb::smb2_negotiate(&h, &[0x0210, 0x0202], &[3; 16]) } else { appsmb::smb2_session_setup(&h, &[1, 2, 3, 4]) };
+            (two[d[0] as usize], m)
+        });
+        {
+            let pls = vec![appsmb::smb1_negotiate(&Smb1Hdr::new(0x72), &["NT LM 0.12"]), appsmb::smb2_negotiate(&Smb2Hdr::new(0), &[0x0202, 0x0311], &[5; 16]), appsmb::smb2_session_setup(&Smb2Hdr::new(1), &[7; 8])];
+            cuts_stage(rep, &env, &format!("smb-cuts-{}", tag), &pls, 12);
+        }
         let dims = [2u64, 2, 65536];
         sweep_app(rep, &env, &format!("smb2-cmd-flags-{}", tag), "command 0..65535 x response flag x {UDP, TCP}", product(&dims), |i| {
             let d = unrank(i, &dims);
@@ -1000,10 +1094,10 @@ pub fn run_c17(rep: &mut Report, thorough: bool) {
 /* ------------------------------------------------------------------ C18 SSH / Gh0st */
 
 pub fn run_c18(rep: &mut Report, thorough: bool) {
-    rep.rule = "SSH: for each of the two signature prefixes, EVERY string of length <= 5 (thorough: <= 6) over the 9-symbol alphabet {'-', '.', '0', 'a', SP, CR, LF, 00, ff} appended after the prefix, and the same set with a well-formed tail '-x CR LF' appended; the unit tests' banners with every single-byte fault; Gh0st: magic followed by every tail of length <= 3 over the same alphabet, a captured request, and tails of 1, 2, 4 KB; over UDP and TCP; judged by the independent recogniser of 'SSH-<digits and dots>-<software>[ SP comment] CR LF' (reply exactly 'SSH-2.0-1 CR LF') and the Gh0st frame decoder (declared total length, zlib body inflating to the declared length)".into();
+    rep.rule = "SSH: for each of the two signature prefixes, EVERY string of length <= 5 (thorough: <= 7) over the 9-symbol alphabet {'-', '.', '0', 'a', SP, CR, LF, 00, ff} appended after the prefix, and the same set with a well-formed tail '-x CR LF' appended; the unit tests' banners with every single-byte fault; Gh0st: magic followed by every tail of length <= 3 over the same alphabet, a captured request, and tails of 1, 2, 4 KB; over UDP and TCP; judged by the independent recogniser of 'SSH-<digits and dots>-<software>[ SP comment] CR LF' (reply exactly 'SSH-2.0-1 CR LF') and the Gh0st frame decoder (declared total length, zlib body inflating to the declared length)".into();
     rep.assumptions = vec!["abstentions: empty software string, empty comment".into()];
     let alpha: [u8; 9] = [b'-', b'.', b'0', b'a', b' ', b'\r', b'\n', 0x00, 0xff];
-    let maxlen: u32 = if thorough { 6 } else { 5 };
+    let maxlen: u32 = if thorough { 7 } else { 5 };
     let mut total_strings = 0u64;
     let mut offs = vec![0u64];
     for l in 0..=maxlen {
@@ -1024,7 +1118,7 @@ pub fn run_c18(rep: &mut Report, thorough: bool) {
     let pt = Path { tcp: true, v6: true, ports: 1 };
     let banners: Vec<&[u8]> = vec![b"SSH-2.0-SOFTWARE COMMENT\r\n", b"SSH-1.99-SOFTWARE COMMENT\r\n", b"SSH-2.0-SOFT WARE COMMENT\r\n", b"SSH-2.0-SOFTWARE  COMMENT\r\n", b"SSH-2.0-SOFT\rWARE COM\rMENT\r\n", b"SSH-2.0-SOFTWARE\r\n", b"SSH-2.0-SOFTWARE COMMENT\n", b"SSH-2.0-SOFTWARE COMMENT\r", b"SSH-1.99-S C\r\n", b"SSH-2.0.1-a\r\n", b"SSH-2.0-a\r\r\n"];
     for env in envs(rep) {
-        let tag = if env.cfg.profile == crate::driver::Profile::Dev { "dev" } else if env.cfg.self_ips.is_empty() { "plain" } else if env.cfg.level == crate::driver::Level::Trace { "lists-trace" } else { "lists" };
+        let tag = if env.cfg.self_ips.is_empty() { "plain" } else if env.cfg.level == crate::driver::Level::Trace { "lists-trace-dev" } else { "lists" };
         let dims = [2u64, 2, 2, total_strings];
         sweep_app(rep, &env, &format!("ssh-strings-{}", tag), "prefix {SSH-2.0, SSH-1.99} x {bare, + '-x CR LF'} x {UDP, TCP} x all strings of length <= L over 9 symbols", product(&dims), |i| {
             let d = unrank(i, &dims);
@@ -1068,6 +1162,11 @@ pub fn run_c18(rep: &mut Report, thorough: bool) {
                 };
                 (Path { tcp: true, v6: d[1] == 1, ports: d[1] as usize }, vec![firsts[d[0] as usize].to_vec(), second])
             });
+        }
+        {
+            let mut pls: Vec<Vec<u8>> = banners.iter().map(|b| b.to_vec()).collect();
+            pls.push(ghost_request());
+            cuts_stage(rep, &env, &format!("ssh-ghost-cuts-{}", tag), &pls, 12);
         }
         let gt = 1 + 9 + 81 + 729;
         sweep_app(rep, &env, &format!("ghost-tails-{}", tag), "Gh0st magic + every tail of length <= 3 over 9 symbols, the captured request, tails of 1/2/4 KB, x {UDP v4, TCP v6, UDP v6, TCP v4}", (gt + 4) * 4, |i| {
